@@ -157,6 +157,9 @@ class TCPServer:
         with trio.move_on_after(self.config.keep_alive_timeout):
             await self.context.terminated.wait()
 
+        # Stopped (no longer idle) since the above, which the shield
+        # below would not notice.
+        await trio.lowlevel.checkpoint_if_cancelled()
         with trio.CancelScope(shield=True):
             await self._initiate_server_close()
 
